@@ -15,6 +15,11 @@ var c10Forms = []EscForm{
 	{Name: "c", Tpl: "{%c= $V %}", Fn: 8, Itr: 1},
 	{Name: "cc", Tpl: "{%cc= $V %}", Fn: 8, Itr: 2},
 	{Name: "|cssEscape", Tpl: "{%= $V|cssEscape %}", Fn: 8, Itr: 1},
+	{Name: "|jse", Tpl: "{%= $V|jse %}", Fn: 7, Itr: 1},
+	{Name: "|ce", Tpl: "{%= $V|ce %}", Fn: 8, Itr: 1},
+	{Name: "J-tight", Tpl: "{%J=$V%}", Fn: 7, Itr: 1},
+	{Name: "J<-default", Tpl: "{%J= nosuchvar|default($V) %}", Fn: 7, Itr: 1, MinIn: 1},
+	{Name: "c<-def", Tpl: "{%c= nosuchvar|def($V) %}", Fn: 8, Itr: 1, MinIn: 1},
 }
 
 var reJSAlphabet = regexp.MustCompile(`^([A-Za-z0-9,._]|\\[\\/bfnrt]|\\u[0-9a-fA-F]{4})*$`)
